@@ -391,6 +391,9 @@ def run(ctx):
     sub = type(ctx)(ctx.prog, "C05", ctx.tier, True)
     c05.check_pair_filter(sub)
     _import(ctx, sub, "C05.6", "C04.5")
+    sub = type(ctx)(ctx.prog, "C05", ctx.tier, True)
+    c05.check_conditional_axes(sub)          # compute_single scores a slice through the pair filter, not around it
+    _import(ctx, sub, "C05.7", "C04.5")
     sub = type(ctx)(ctx.prog, "C07", ctx.tier, True)
     c07.check_within(sub)
     _import(ctx, sub, "C07.6", "C04.5")
